@@ -31,9 +31,9 @@ EXHAUSTIVE = {"quick": False, "thorough": False}
 SOFT_LIMIT = {"quick": 240, "thorough": 1500}
 REQUIRED_FUNCS = ["sempler/semi.py:DRFNet.__init__", "sempler/semi.py:DRFNet.sample", "sempler/semi.py:BayesianNetwork.sample",
                   "sempler/semi.py:_bootstrap", "drf/code.py:drf.fit", "drf/code.py:drf.predict"]
-REQUIRED_COUNTERS = {"quick": {"sample-calls": 600, "queries-checked": 1000, "fits-checked": 500, "independence-asserted": 100, "forest-draws-independence-asserted": 300,
+REQUIRED_COUNTERS = {"quick": {"sample-calls": 600, "queries-checked": 1000, "fits-checked": 500, "independence-asserted": 100, "forest-draws-independence-asserted": 300, "bootstrap:rows-judged": 500,
                                "repro:seeded-pairs": 200, "repro:seed0": 20, "errors:raised-as-documented": 400, "n:list": 50, "n:int": 50, "n:None": 50},
-                     "thorough": {"sample-calls": 3000, "queries-checked": 6000, "fits-checked": 3000, "independence-asserted": 500, "forest-draws-independence-asserted": 1500,
+                     "thorough": {"sample-calls": 3000, "queries-checked": 6000, "fits-checked": 3000, "independence-asserted": 500, "forest-draws-independence-asserted": 1500, "bootstrap:rows-judged": 3000,
                                   "repro:seeded-pairs": 1000, "repro:seed0": 100, "errors:raised-as-documented": 400, "n:list": 250, "n:int": 250, "n:None": 250}}
 N = {"quick": 320, "thorough": 3200}
 
@@ -41,6 +41,12 @@ N = {"quick": 320, "thorough": 3200}
 def gen(tier, seed, shard, nshards):
     if shard == 0:
         yield "errors", {"k": 0}
+    # bootstrap of source variables: every observed row equally likely (frequencies over one long sample)
+    for b in range(16 if tier == "quick" else 96):
+        if b % nshards == shard:
+            rng = util.rng_for("C19", seed, "boot", b)
+            yield "bootstrap", {"p": int(rng.integers(1, 4)), "Ns": [int(rng.integers(5, 90)) for _ in range(int(rng.integers(1, 3)))],
+                                "n": 40000, "rs": [None, 0, int(rng.integers(0, 2**32))][b % 3], "dseed": int(rng.integers(0, 2**31)), "k": b}
     for k in range(N[tier]):
         if k % nshards != shard:
             continue
@@ -91,6 +97,38 @@ def judge(family, case, rec):
     from rpy2.robjects import packages as backend
     if family == "errors":
         _errors(semi, rec, family, case)
+        return
+    if family == "bootstrap":
+        p, Ns, n = case["p"], case["Ns"], case["n"]
+        rec.case(family, case, True, key=("boot", case["k"], case["dseed"]))
+        data = _data(p, Ns, case["dseed"])
+        try:
+            net = semi.DRFNet(np.zeros((p, p)), [a.copy() for a in data])
+            res = net.sample(n, random_state=case["rs"]) if case["rs"] is not None else net.sample(n)
+        except Exception as ex:
+            rec.exception_violation("C19:sample-exception", family, case, "DRFNet without edges: construction / sample(%d) raised" % n, ex)
+            return
+        for k in range(len(Ns)):
+            a = np.asarray(res[k])
+            if a.shape != (n, p):
+                rec.violation("C19:output-shape", family, case, "environment %d: shape %r, expected (%d, %d)" % (k, a.shape, n, p))
+                return
+            for i in range(p):
+                pos = {v: r for r, v in enumerate(data[k][:, i].tolist())}
+                try:
+                    idx = np.array([pos[v] for v in a[:, i].tolist()])
+                except KeyError:
+                    rec.violation("C19:value-not-from-training-column", family, case, "environment %d, variable %d contains values never observed" % (k, i))
+                    return
+                cnt = np.bincount(idx, minlength=Ns[k])
+                rec.count("bootstrap:rows-judged", Ns[k])
+                for r in range(Ns[k]):
+                    bnd = S.binom_tail_bound(int(cnt[r]), n, 1.0 / Ns[k])
+                    if bnd < S.DELTA / Ns[k]:
+                        rec.violation("C19:bootstrap-not-uniform", family, case,
+                                      "environment %d, source variable %d: observation %d of %d was drawn %d times in %d rows (about %d expected; bound %.3g)"
+                                      % (k, i, r, Ns[k], int(cnt[r]), n, n // Ns[k], bnd))
+                        return
         return
     out = list(case["masks"])
     p = len(out)
